@@ -84,11 +84,59 @@ def splitOn' (sep : String) (l : List String) : List (List String) :=
     | h :: r => (tok :: h) :: r
     | [] => [[tok]]) [[]]
 
-def runOps (s : State) : List Op → List String
+/-! ### requests with LISTS of files / patterns, as sequences of the model's operations
+
+`db.load([f1, f2, …], read)` checks every file first, in list order (a path that is no file: `FileExistsError`; a file one of
+whose keys is registered, or that occurs earlier in the list: `KeyError`), and then registers (and reads) file by file: on
+success it is the sequence of the single-file loads, on rejection nothing happens.  `db.clear([p1, p2, …])` removes the keys of
+the de-duplicated listing for the patterns, computed once on the database as it is: the sequence of the clears of those keys
+one by one (each full key taken as a pattern that matches itself only; checked: `err composite-clear` otherwise).
+Every constituent is a `Registry.step`, so the theorems about `step` / `run` cover these requests. -/
+
+inductive Item
+  | prim (op : Op)
+  | loadl (w : Which) (read : Bool) (files : List (Str × Bool × Bool × List Str))    -- (file, exists, indexed, names)
+  | clearl (w : Which) (pats : List Str)
+
+/-- The model operations a request stands for in state `s`, or the error it is rejected with. -/
+def expand (s : State) : Item → Except String (List Op)
+  | .prim op => .ok [op]
+  | .loadl w read files =>
+    let d := getDb s w
+    let rec check (seen : List Str) : List (Str × Bool × Bool × List Str) → Option String
+      | [] => none
+      | (file, ex, _, names) :: rest =>
+        if !ex then some "err FileExistsError"
+        else if !names.isEmpty && (seen.contains file || names.any fun n => hasKey d.register (pathJoin file n)) then
+          some "err key"
+        else check (file :: seen) rest
+    match check [] files with
+    | some e => .error e
+    | none => .ok (files.map fun f => .load w f.1 f.2.2.2 f.2.2.1 read)
+  | .clearl w pats =>
+    let d := getDb s w
+    let m := (listKeys d.keys pats).eraseDups
+    let ops : List Op := m.map fun k => .clear w (some k)
+    let s' := ops.foldl (fun st op => (step st op).1) s
+    if (getDb s' w).keys == d.keys.filter (fun k => !m.contains k) then .ok ops else .error "err composite-clear"
+
+def parseItem? : List String → Option Item
+  | "loadl" :: w :: read :: rest => do
+    let files ← (splitOn' "|" rest).mapM fun
+      | [file, ex, indexed, names] => do some ((← unhex? file), (← bool? ex), (← bool? indexed), (← strList? names))
+      | _ => none
+    some (.loadl (← which? w) (← bool? read) files)
+  | ["clearl", w, pats] => do some (.clearl (← which? w) (← strList? pats))
+  | toks => (parseOp? toks).map .prim
+
+def runOps (s : State) : List Item → List String
   | [] => []
-  | op :: ops =>
-    let (s', o) := step s op
-    (showOut o ++ " # " ++ digest s'.a ++ " # " ++ digest s'.b) :: runOps s' ops
+  | it :: its =>
+    let (s', o) : State × String := match it, expand s it with
+      | .prim op, _ => let r := step s op; (r.1, showOut r.2)
+      | _, .error e => (s, e)
+      | _, .ok ops => (ops.foldl (fun st op => (step st op).1) s, "done")
+    (o ++ " # " ++ digest s'.a ++ " # " ++ digest s'.b) :: runOps s' its
 
 
 /-! ### `db.bind` -/
@@ -124,20 +172,26 @@ def showBindOut (os : Binding.Origins) : Out → String
       joinWith "," (l.map fun kv => hex kv.1 ++ "=" ++ showOrigin os (Binding.root os kv.2)))
   | o => showOut o
 
-def bindOps (b : Binding.Bind) (s : State) : List Op → List String
+def bindOps (b : Binding.Bind) (s : State) : List Item → List String
   | [] => []
-  | op :: ops =>
-    let b' := Binding.step b s op
-    let (s', o) := step s op
-    (showBindOut b'.origins o ++ " # " ++ bindDigest b'.origins s'.a b'.recA ++ " # " ++ bindDigest b'.origins s'.b b'.recB)
-      :: bindOps b' s' ops
+  | it :: its =>
+    let (b', s', o) : Binding.Bind × State × String := match it, expand s it with
+      | .prim op, _ =>
+        let b' := Binding.step b s op
+        let r := step s op
+        (b', r.1, showBindOut b'.origins r.2)
+      | _, .error e => (b, s, e)
+      | _, .ok ops =>
+        let bs := ops.foldl (fun (acc : Binding.Bind × State) op => (Binding.step acc.1 acc.2 op, (step acc.2 op).1)) (b, s)
+        (bs.1, bs.2, "done")
+    (o ++ " # " ++ bindDigest b'.origins s'.a b'.recA ++ " # " ++ bindDigest b'.origins s'.b b'.recB) :: bindOps b' s' its
 
 def handle : List String → Option String
   | "db.run" :: rest => do
-    let ops ← (splitOn' ";" rest).mapM parseOp?
+    let ops ← (splitOn' ";" rest).mapM parseItem?
     some ("ok " ++ joinWith " ; " (runOps {} ops))
   | "db.bind" :: rest => do
-    let ops ← (splitOn' ";" rest).mapM parseOp?
+    let ops ← (splitOn' ";" rest).mapM parseItem?
     some ("ok " ++ joinWith " ; " (bindOps {} {} ops))
   | ["nm.fnmatch", pat, name] => do
     some (if fnmatch (← unhex? pat) (← unhex? name) then "ok 1" else "ok 0")
